@@ -204,6 +204,8 @@ def one_param_configs(name, extra, bounds, chk, gw=False, tests=(None,), with_up
                 outs = outs * 2
             if t != "detect":
                 c["outside"] = outs
+                if extra.get("prior") == "uniform":
+                    c["prime_probe_auto"] = True
             c["label"] = f"{'gw:' if gw else ''}{name}{tag}|{json.dumps(extra, sort_keys=True)}|b={bounds}|upd={'y' if upd else 'n'}|test={t}"
             out.append(c)
     return out
@@ -337,11 +339,80 @@ def gen_configs(chk, reg):
                         add([c], cls, kw)
             else:
                 unclassified.append(f"{name} -> {cls}")
+    for c, kw in multi_rtb_configs(chk):
+        c["expect_reject"] = predicted_reject("RescaleToBounds", kw)
+        c["cls"] = "RescaleToBounds"
+        cfgs.append(c)
     for c, cls in combined_configs(chk) + regression_configs(chk):
         c["expect_reject"] = False
         c["cls"] = cls
         cfgs.append(c)
     return cfgs, unclassified
+
+
+def multi_rtb_configs(chk):
+    """ONE RescaleToBounds over two parameters: boundary inversion on all / some / none of them (bool, list, dict)
+    x rescale bounds (default, list, per-parameter dict) x prior='uniform' x offset, before and after update(),
+    every edge.  The prime-prior bounds of EVERY parameter are decided against the model and the prime prior is
+    probed in prime space (non-zero exactly when the pre-image lies in the prior box)."""
+    rng = chk.rng
+    quick = chk.tier == "quick"
+    names = ["x", "z", "y"]
+    out = []
+    bis = [["x"], {"z": "duplicate"}, {"x": "split"}, None, True]
+    rbs = [None, [0.0, 1.0], [-2.0, 5.0], {"x": [0.0, 1.0], "z": [-2.5, 4.0]}]
+    combos = []
+    for bi in bis:
+        for rb in rbs:
+            for off in (False, True):
+                for prior in ("uniform", None):
+                    combos.append((bi, rb, off, prior))
+    if quick:
+        keep = [c for c in combos if c[3] == "uniform" and isinstance(c[0], (list, dict)) and c[1] is not None and not c[2]]
+        keep += [(["x"], None, True, "uniform"), (None, [0.0, 1.0], False, "uniform"), (True, [-2.0, 5.0], False, "uniform"),
+                 (["x"], [0.0, 1.0], True, None)]
+        combos = keep
+    for k, (bi, rb, off, prior) in enumerate(combos):
+        for name in (("default",) if quick else ("default", "offset")):
+            extra = {}
+            if bi is not None:
+                extra["boundary_inversion"] = bi
+            if rb is not None:
+                extra["rescale_bounds"] = rb
+            if off:
+                extra["offset"] = True
+            if prior:
+                extra["prior"] = prior
+            bounds = {"x": (-3.7, 12.9), "z": [(1e-3, 250.0), (0.0, 1.0), (1e5, 100001.0)][k % 3], "y": (0.0, 1.0)}
+            reps = {name: dict({"parameters": ["x", "z"]}, **extra)}
+            any_inv = bool(bi)
+            tests = ("lower", "upper", False) if any_inv else (None,)
+            if quick and any_inv:
+                tests = (("lower", "upper", False)[k % 3],)
+            for upd in (False, True):
+                for t in tests:
+                    pts = _pts_for(names, bounds, chk, per_axis=("x", "z"))
+                    c = make_cfg(names, bounds, reps, pts, test=t)
+                    if upd:
+                        c["update"] = [[bounds[n][0] + (bounds[n][1] - bounds[n][0]) * (0.08 + 0.84 * rng.random()) for n in names]
+                                       for _ in range(7)]
+                    c["neighbours"] = neighbours(c)
+                    outs = []
+                    for n in ("x", "z"):
+                        a, b = bounds[n]
+                        w = b - a
+                        inv_n = (bi is True) or (isinstance(bi, (list, dict)) and n in bi)
+                        mid = {m: bounds[m][0] + 0.41 * (bounds[m][1] - bounds[m][0]) for m in names}
+                        if not (inv_n and t == "lower"):
+                            outs += [dict(mid, **{n: a - 1e-3 * w}), dict(mid, **{n: a - 0.37 * w})]
+                        if not (inv_n and t == "upper"):
+                            outs += [dict(mid, **{n: b + 1e-3 * w}), dict(mid, **{n: b + 0.37 * w})]
+                    c["outside"] = [[o[m] for m in names] for o in outs]
+                    if prior:
+                        c["prime_probe_auto"] = True
+                    c["label"] = f"multi:{name}|{json.dumps(extra, sort_keys=True)}|z={bounds['z']}|upd={'y' if upd else 'n'}|test={t}"
+                    out.append((c, dict(extra)))
+    return out
 
 
 def regression_configs(chk):
@@ -623,6 +694,22 @@ def direct_predicate(c, r):
         for j, v in enumerate(r.get("outside_prior", [])):
             if v != -math.inf:
                 fails.append(("prime-support", f"prime prior {v!r} at the image of {c['outside'][j % r['outside_n']]} (outside the prior box)", None))
+        # prime-space probe: non-zero prime prior exactly when the pre-image lies in the prior box
+        for k, v in enumerate(r.get("probe_prior", [])):
+            pn = r["probe_which"][k]
+            par = r["probe_owner"].get(pn)
+            if par is None or par not in c["bounds"]:
+                continue
+            a, b = c["bounds"][par]
+            xb = r["probe_back"][par][k]
+            tolb = 1e-9 * (b - a) + 64 * box_u(a, b)
+            if finite(xb) and (abs(xb - a) <= tolb or abs(xb - b) <= tolb):
+                continue
+            inside = finite(xb) and a < xb < b
+            if (v != -math.inf) != inside and v == v:
+                fails.append(("prime-support-probe",
+                              f"prime point {pn} = {r['probe_xp'][pn][k]!r}: prime prior {v!r} but its pre-image {par} = {xb!r} is "
+                              f"{'inside' if inside else 'outside'} the prior box [{a}, {b}]", None))
     skip = set(c.get("skip_rows") or [])
     for j in range(m):
         i = j % n
